@@ -1,5 +1,5 @@
 SPECIFICATION Spec
-CONSTANTS Mode = "energy"  Variant = "curl_sign"  Family = "list"  List = { 1090312 }  Steps = 1
+CONSTANTS Mode = "energy"  Variant = "curl_sign"  Family = "list"  List = { 1010101 }  Steps = 1  PairMod = 7
           Extra = { 1000 }
 INVARIANT TypeOK
 INVARIANT EnergyBalance
